@@ -610,7 +610,7 @@ pub fn check_main(prop: &str, tier: &str) -> i32 {
         assumptions: vec![
             "C05-C08 are judged relative to the StateTable built by lrtable (its correctness is C01/C16)".into(),
             "std reaches entropy and the monotonic clock through the libc symbols getrandom / clock_gettime (self-tested at start-up)".into(),
-            "inputs have at most 24 (quick) / 40 (thorough) lexemes, so TRY_PARSE_AT_MOST=250 never binds".into(),
+            "inputs have at most 24 (quick) / 40 (thorough) lexemes, except the long-tail family (300-700 lexemes, errors in the first dozen), the only one on which the ranking window TRY_PARSE_AT_MOST=250 binds; the reference ranks with the same window".into(),
             "completeness (C06 c/d) is compared only where the reference enumeration stays under its caps; the rest is counted under c06_inconclusive".into(),
         ],
         wall_s: wall,
